@@ -2127,3 +2127,47 @@ def _dur_mul(it, key, raw, args):
 
 for _op in ('lt', 'le', 'gt', 'ge'):
     MODELS['<Duration as PartialOrd>::%s' % _op] = (lambda op: lambda it, key, raw, args: lex_cmp(it, args[0], args[1], op))(_op)
+
+
+# ----- futures: `async fn` state machines are polled through their MIR poll function; leaf futures are Natives
+class LeafFuture(Native):
+    """a leaf future (inter-canister call): returns Pending `pending` more times, then Ready(value)"""
+    ty = 'LeafFuture'
+
+    def __init__(self, value_fn, pending=0, label=''):
+        self.value_fn, self.pending, self.label = value_fn, pending, label
+        self.done = False
+
+    def poll(self, it):
+        if self.pending > 0:
+            self.pending -= 1
+            return Agg('Poll', [], 1)
+        if self.done:
+            raise Panic('leaf future polled after completion')
+        self.done = True
+        return Agg('Poll', [Cell(self.value_fn(it))], 0)
+
+
+@model('<* as Future>::poll')
+def _future_poll(it, key, raw, args):
+    pin = args[0]
+    tgt = pin.f(0) if isinstance(pin, Agg) and pin.ty == 'Pin' else pin
+    cell = tgt.cell if isinstance(tgt, Ref) else Cell(tgt)
+    v = cell.v
+    if isinstance(v, Ref):
+        cell = v.cell
+        v = cell.v
+    if isinstance(v, LeafFuture):
+        return v.poll(it)
+    if isinstance(v, Agg) and isinstance(v.ty, str) and v.ty.startswith('coroutine:'):
+        b = it.prog.closures.get('async:' + v.ty[len('coroutine:'):])
+        if b is None:
+            raise Unsupported('poll function of %s' % v.ty)
+        return it.run(b, [Agg('Pin', [Cell(Ref(cell))]), args[1]])
+    raise Unsupported('poll of %r' % (v,))
+
+
+def poll_once(it, co_cell):
+    """poll a coroutine value stored in `co_cell`; returns ('ready', value) or ('pending', None)"""
+    r = _future_poll(it, None, '', [Agg('Pin', [Cell(Ref(co_cell))]), Opaque('cx')])
+    return ('ready', r.fields[0].v) if r.variant == 0 else ('pending', None)
